@@ -627,11 +627,14 @@ def gen_history(rng, nops, interleave, nkeys=None):
 # A case of kind 'dbprog':
 #   clauses: [{'name', 'nv', 'head': [terms over 0..nv-1], 'body': [goals]}]   (clauses of one predicate are contiguous)
 #   goal:    ['u', a, b]  A = B  |  ['c', name, args]  name(args)  |  ['as', front, t]  |  ['re', t]  |  ['ra', t]
+#            control (round 5): ['cut'] | ['fail'] | ['or', A, B]  ( A ; B ) | ['if', C, T, E]  ( C -> T ; E )
+#            | ['ifthen', C, T]  ( C -> T ) | ['not', C]  \+ ( C )      with A, B, C, T, E lists of goals ([] = true)
 #   queries: [[name, args over 0..nq-1, nq]]   run one after the other to exhaustion on the same engine
 #   reads:   [[name, arity]]                   stored facts printed at the end (match_dynamic with new variables)
 # The program text is compiled by the real compiler; the model runs the same clauses (Engine/RunDbProg.v).
 
 _QNIL = [False]        # render the atom [] as '[]' (the compiler then emits atom('[]') instead of ATOM_NIL)
+_NILQ = [None]
 
 def pl_term(t):
     k = t[0]
@@ -654,10 +657,12 @@ def pl_term(t):
 def pl_goal(g, nilq=None):
     # nilq: 'pat' / 'fact' = goals / asserted terms spell the empty list '[]' instead of []
     _QNIL[0] = (nilq == 'fact') if g[0] == 'as' else (nilq == 'pat')
+    _NILQ[0] = nilq
     try:
         return _pl_goal(g)
     finally:
         _QNIL[0] = False
+        _NILQ[0] = None
 
 def _pl_goal(g):
     k = g[0]
@@ -671,7 +676,77 @@ def _pl_goal(g):
         return 'retract(%s)' % pl_term(g[1])
     if k == 'ra':
         return 'retractall(%s)' % pl_term(g[1])
+    if k == 'cut':
+        return '!'
+    if k == 'fail':
+        return 'fail'
+    if k == 'or':
+        return '( %s ; %s )' % (_pl_conj(g[1]), _pl_conj(g[2]))
+    if k == 'if':
+        return '( %s -> %s ; %s )' % (_pl_conj(g[1]), _pl_conj(g[2]), _pl_conj(g[3]))
+    if k == 'ifthen':
+        return '( %s -> %s )' % (_pl_conj(g[1]), _pl_conj(g[2]))
+    if k == 'not':
+        return '\\+ ( %s )' % _pl_conj(g[1])
     raise ValueError(g)
+
+def _pl_conj(gs):
+    q = _QNIL[0]
+    out = []
+    for g in gs:
+        # the spelling of [] depends on the kind of goal (see pl_goal); inside a branch as outside
+        _QNIL[0] = (_NILQ[0] == 'fact') if g[0] == 'as' else (_NILQ[0] == 'pat')
+        out.append(_pl_goal(g))
+    _QNIL[0] = q
+    return ', '.join(out) if out else 'true'
+
+def flat_goals(gs):
+    """the goals of a body in textual order, those inside the branches of control constructs included"""
+    for g in gs:
+        if g[0] in ('or', 'if', 'ifthen', 'not'):
+            for sub in g[1:]:
+                yield from flat_goals(sub)
+        else:
+            yield g
+
+def nest_depth(gs):
+    """number of statically nested blocks the compiler emits for the conjunction gs (it duplicates the continuation into
+    both branches of a disjunction / if-then-else); CPython refuses more than 20"""
+    if not gs:
+        return 0
+    g, r = gs[0], gs[1:]
+    k = g[0]
+    if k == 'fail':
+        return 0
+    if k == 'cut':
+        return nest_depth(r)
+    if k == 'or':
+        return max(nest_depth(g[1] + r), nest_depth(g[2] + r))
+    if k == 'if':
+        return 2 + max(nest_depth(g[1] + g[2] + r), nest_depth(g[3] + r))
+    if k == 'ifthen':
+        return 2 + nest_depth(g[1] + g[2] + r)
+    if k == 'not':
+        return 2 + max(nest_depth(g[1]), nest_depth(r))
+    return 1 + nest_depth(r)
+
+def code_size(gs):
+    """number of goal occurrences in the emitted code (continuations are duplicated)"""
+    if not gs:
+        return 1
+    g, r = gs[0], gs[1:]
+    k = g[0]
+    if k == 'fail':
+        return 1
+    if k == 'or':
+        return code_size(g[1] + r) + code_size(g[2] + r)
+    if k == 'if':
+        return code_size(g[1] + g[2] + r) + code_size(g[3] + r)
+    if k == 'ifthen':
+        return code_size(g[1] + g[2] + r)
+    if k == 'not':
+        return code_size(g[1]) + code_size(r)
+    return 1 + code_size(r)
 
 def prog_source(case):
     lines = []
@@ -695,7 +770,25 @@ def g_goal(g):
         return '(GRetract %s)' % g_term(g[1])
     if k == 'ra':
         return '(GRetractAll %s)' % g_term(g[1])
+    if k == 'cut':
+        return 'GCut'
+    if k == 'fail':
+        return 'GFail'
+    if k == 'or':
+        # the parser's tree: a disjunction whose left side is an if-then IS an if-then-else (parentheses are not kept)
+        if len(g[1]) == 1 and g[1][0][0] == 'ifthen':
+            return '(GIf %s %s %s)' % (g_goals(g[1][0][1]), g_goals(g[1][0][2]), g_goals(g[2]))
+        return '(GOr %s %s)' % (g_goals(g[1]), g_goals(g[2]))
+    if k == 'if':
+        return '(GIf %s %s %s)' % (g_goals(g[1]), g_goals(g[2]), g_goals(g[3]))
+    if k == 'ifthen':
+        return '(GIfThen %s %s)' % (g_goals(g[1]), g_goals(g[2]))
+    if k == 'not':
+        return '(GNot %s)' % g_goals(g[1])
     raise ValueError(g)
+
+def g_goals(gs):
+    return g_list([g_goal(g) for g in gs])
 
 def prog_model_expr(case):
     cls = ['(mkcl %s %s %s %s)' % (g_str(c['name']), g_nat(c['nv']), g_list([g_term(a) for a in c['head']]),
@@ -724,7 +817,13 @@ def prog_run_impl(case):
     if case.get('clear_first'):
         yp.clear()            # a new atom table; yp.ATOM_NIL (= the [] of compiled code) is the object made before
     src = prog_source(case)
-    yp.load_script_from_string(compiler.compile_prolog_from_string(src))
+    try:
+        code = compiler.compile_prolog_from_string(src)
+    except Exception as ex:
+        if 'program too large for Python' in str(ex):
+            return {'end': 'too-large', 'queries': []}       # D13: CPython's limit of 20 nested blocks; not a database matter
+        raise
+    yp.load_script_from_string(code)
     out_q = []
     count = [0]
     real_assert = yp.assert_fact
@@ -799,6 +898,8 @@ def prog_compare(case, io, mo):
         return 'implementation side: %r' % (io,)
     if stuck and io['end'] in ('deep', 'budget', 'too-many-answers'):
         return None
+    if io['end'] == 'too-large' and max(nest_depth(c['body']) for c in case['clauses']) >= 14:
+        return None
     for i, q in enumerate(mq):
         if q == ['stuck']:
             return None            # cyclic term / fuel: outside the specified domain from here on
@@ -837,11 +938,23 @@ def prog_describe(case):
     return {'program': prog_source(case), 'queries': [[n, [terms.show_term(a) for a in args]] for n, args, _ in case['queries']],
             'reads': case['reads'], 'clear_first': case.get('clear_first', False), 'api_nil': case.get('api_nil', 'atom')}
 
+def _shrink_goals(gs):
+    """smaller variants of a list of goals: one goal dropped; a control construct replaced by one of its branches;
+    a branch made smaller"""
+    for gi, g in enumerate(gs):
+        yield gs[:gi] + gs[gi + 1:]
+        if g[0] in ('or', 'if', 'ifthen', 'not'):
+            for sub in g[1:]:
+                yield gs[:gi] + sub + gs[gi + 1:]
+            for bi in range(1, len(g)):
+                for small in _shrink_goals(g[bi]):
+                    yield gs[:gi] + [g[:bi] + [small] + g[bi + 1:]] + gs[gi + 1:]
+
 def prog_shrink(case):
     cls = case['clauses']
     for ci, c in enumerate(cls):
-        for gi in range(len(c['body'])):
-            c2 = dict(c); c2['body'] = c['body'][:gi] + c['body'][gi + 1:]
+        for body in _shrink_goals(c['body']):
+            c2 = dict(c); c2['body'] = body
             if not c2['body'] and c['name'] == 'init':
                 continue
             n = dict(case); n['clauses'] = cls[:ci] + [c2] + cls[ci + 1:]
@@ -863,7 +976,7 @@ def prog_nontrivial(case, io):
         return callable_key(t)
     for c in case['clauses']:
         gens = set()
-        for g in c['body']:
+        for g in flat_goals(c['body']):
             if g[0] == 'c' and any(terms.term_vars(a) for a in g[2]):
                 gens.add((g[1], len(g[2])))
             elif g[0] == 're':
@@ -879,7 +992,9 @@ def prog_nontrivial(case, io):
 
 PROG_DYN = [('p', 1), ('q', 1), ('c', 1), ('flag', 0), ('r', 2)]
 
-def gen_dbprog(rng, loopy=0.6):
+def gen_dbprog(rng, loopy=0.6, ctrl=0.5):
+    """ctrl: share of the programs whose bodies contain !, ;, ->, \\+ (also in the helper predicate)"""
+    control = rng.random() < ctrl
     nv = rng.choice([2, 3, 3, 4])
     K = ('p', 1) if rng.random() < 0.65 else rng.choice(PROG_DYN)
     def key():
@@ -913,17 +1028,43 @@ def gen_dbprog(rng, loopy=0.6):
             [['c', k[0], [term(0.8) for _ in range(k[1])]], ['as', rng.random() < 0.5, goal_term(k, 0.6)]],
         ])
         ncl = rng.choice([1, 1, 2])
+        if control and rng.random() < 0.6:
+            # the helper commits: its cut must end the helper's clauses (and its suspended goals) and nothing of the caller
+            hb = hb + [['cut']] + ([['as', rng.random() < 0.5, goal_term(k, 0.6)]] if rng.random() < 0.4 else [])
+            ncl = 2
         for i in range(ncl):
             clauses.append({'name': 'h', 'nv': nv, 'head': [term(0.7)], 'body': hb if i == 0 else []})
         helpers.append(('h', 1))
     h = rng.choice([0, 1, 1, 2])
-    body = []
     ngen = 0
     n = rng.choice([2, 3, 4, 5, 6, 7])
-    while len(body) < n:
+    nctl = [0]
+    def steps(body, n, depth):
+      nonlocal ngen
+      while len(body) < n:
         q = rng.random()
         k = key(); used.add(k)
-        if q < 0.24:
+        if control and nctl[0] < 3 and rng.random() < (0.32 if depth == 0 else 0.12):
+            nctl[0] += 1
+            def short(maxn=2, cutp=0.25):
+                b = steps([], rng.choice([1, 1, 2][:maxn + 1]), depth + 1)
+                if rng.random() < cutp:
+                    b.insert(rng.randrange(len(b) + 1), ['cut'])
+                return b
+            w = rng.random()
+            if w < 0.22:
+                body.append(['cut'])
+            elif w < 0.42:
+                body.append(['or', short(), short()])
+            elif w < 0.67:
+                body.append(['if', short(cutp=0.15), short(), short() if rng.random() < 0.8 else []])
+            elif w < 0.77:
+                body.append(['ifthen', short(cutp=0.15), short()])
+            elif w < 0.95:
+                body.append(['not', short(cutp=0.15)])
+            else:
+                body.append(['fail'])
+        elif q < 0.24:
             pv = rng.choice([0.5, 0.9, 1.0])
             if pv > 0.4 and ngen >= 3:
                 pv = 0.0
@@ -962,6 +1103,11 @@ def gen_dbprog(rng, loopy=0.6):
                 body.append(rng.choice([['as', False, gv], ['ra', gv]]))
         else:
             body.append(rng.choice([['as', False, ['v', rng.randrange(nv)]], ['re', ['i', 3]], ['c', 'nofacts', [term(0.5)]]]))
+      return body
+    body = steps([], n, 0)
+    # CPython's limit of 20 statically nested blocks (D13) and the duplication of continuations: keep the emitted code small
+    while control and (nest_depth(body) + h > 15 or code_size(body) > 120):
+        body = body[:-1]
     head = [['v', i] for i in range(h)]
     if rng.random() < loopy:
         body.append(['u', ['a', 'a'], ['a', 'b']])       # fail: a failure-driven loop
@@ -1007,6 +1153,48 @@ def dbprog_corpus():
     # non-ground facts used twice from the asserting clause (C13 from compiled code)
     L.append(case([('m', 2, [v(0)], [['as', False, f('p', v(1))], ['c', 'p', [a]], ['c', 'p', [b]], ['c', 'p', [v(0)]]])],
                   [['m', [v(0)], 1]], [['p', 1]]))
+    # ---- control constructs around database operations (round 5)
+    cut = ['cut']
+    z = ['a', 'z']
+    # the counter with a cut:  t :- retract(c(N)), !, N1 = s(N), assertz(c(N1)).   (one counter per call, the rest untouched)
+    L.append(case([('init', 0, [], [['as', False, f('c', I(0))], ['as', False, f('c', I(5))]]),
+                   ('t', 2, [], [['re', f('c', v(0))], cut, ['u', v(1), f('s', v(0))], ['as', False, f('c', v(1))]])],
+                  [['init', [], 0], ['t', [], 0], ['t', [], 0], ['t', [], 0]], [['c', 1]]))
+    # ( p(X) -> retract(p(X)) ; assertz(p(a)) ): toggles
+    L.append(case([('m', 1, [], [['if', [['c', 'p', [v(0)]]], [['re', f('p', v(0))]], [['as', False, f('p', a)]]]])],
+                  [['m', [], 0], ['m', [], 0], ['m', [], 0]], [['p', 1]]))
+    # \+ p(_), assertz(p(1)): stores once
+    L.append(case([('m', 1, [], [['not', [['c', 'p', [v(0)]]]], ['as', False, f('p', I(1))]])],
+                  [['m', [], 0], ['m', [], 0]], [['p', 1]]))
+    # a cut under \+ / inside a condition is local to it; what the condition wrote stays
+    L.append(case([('init', 0, [], [['as', False, f('p', a)], ['as', False, f('p', b)]]),
+                   ('m', 1, [], [['not', [['c', 'p', [v(0)]], cut, ['fail']]], ['as', False, f('q', I(1))]]),
+                   ('m', 1, [], [['as', False, f('q', I(2))]]),
+                   ('n', 1, [], [['if', [['re', f('p', v(0))], cut, ['fail']], [], [['as', False, f('q', v(0))]]]]),
+                   ('n', 1, [], [['as', False, f('q', I(3))]])],
+                  [['init', [], 0], ['m', [], 0], ['n', [], 0]], [['p', 1], ['q', 1]]))
+    # a cut discards branches that have already written; the second clause is not tried
+    L.append(case([('m', 1, [], [['or', [['as', False, f('p', I(1))]], [['as', False, f('p', I(2))]]], ['c', 'p', [v(0)]], cut, ['as', False, f('q', v(0))]]),
+                   ('m', 1, [], [['as', False, f('q', z)]])],
+                  [['m', [], 0], ['m', [], 0]], [['p', 1], ['q', 1]]))
+    # a cut in a helper ends the helper only: the caller keeps its alternatives
+    L.append(case([('init', 0, [], [['as', False, f('p', a)], ['as', False, f('p', b)]]),
+                   ('h', 1, [v(0)], [['c', 'p', [v(0)]], cut]), ('h', 1, [z], []),
+                   ('m', 2, [v(0), v(1)], [['c', 'p', [v(0)]], ['c', 'h', [v(1)]], ['as', False, f('q', v(0), v(1))]]),
+                   ('m', 2, [z, z], [])],
+                  [['init', [], 0], ['m', [v(0), v(1)], 2]], [['p', 1], ['q', 2]]))
+    # a condition that writes and fails; the else branch sees what it wrote
+    L.append(case([('m', 1, [], [['if', [['as', False, f('p', I(1))], ['fail']], [], [['c', 'p', [v(0)]], ['as', False, f('q', v(0))]]]])],
+                  [['m', [], 0], ['m', [], 0]], [['p', 1], ['q', 1]]))
+    # copy loop with a negation guard:  m :- p(X), \+ q(X), assertz(q(X)), fail.  m.
+    L.append(case([('init', 0, [], [['as', False, f('p', a)], ['as', False, f('p', b)], ['as', False, f('p', a)]]),
+                   ('m', 1, [], [['c', 'p', [v(0)]], ['not', [['c', 'q', [v(0)]]]], ['as', False, f('q', v(0))], ['fail']]), ('m', 0, [], [])],
+                  [['init', [], 0], ['m', [], 0]], [['p', 1], ['q', 1]]))
+    # if-then without else, disjunction whose left side is an if-then (= if-then-else), once-like retract
+    L.append(case([('init', 0, [], [['as', False, f('p', a)], ['as', False, f('p', b)]]),
+                   ('m', 1, [v(0)], [['ifthen', [['re', f('p', v(0))]], [['as', True, f('q', v(0))]]]]),
+                   ('n', 1, [v(0)], [['or', [['ifthen', [['c', 'p', [v(0)]]], [['as', False, f('q', v(0))]]]], [['as', False, f('q', z)]]]])],
+                  [['init', [], 0], ['m', [v(0)], 1], ['n', [v(0)], 1], ['m', [v(0)], 1], ['m', [v(0)], 1], ['n', [v(0)], 1]], [['p', 1], ['q', 1]]))
     # [] stored by compiled code, asked for through the API after a clear() (and the other way round)
     nil = ['a', '[]']
     c = case([('init', 0, [], [['as', False, f('p', nil)], ['as', False, f('p', f('f', nil))]]),
